@@ -10,13 +10,15 @@ def check(ctx):
     m1.holds("C12_A", "C12_quick.cfg")
     if not ctx.quick:
         m1.holds("C12_B", "C12_quick.cfg", {"C12_A": "C12_B"}, timeout=3000)
+    m1.holds("C12_S (two instances of one service)", "C12_quick.cfg", {"C12_A": "C12_S", "C12_Inputs": "C12_SInputs"}, timeout=3000)
     m1.caught("SwD5", "C12_quick.cfg")
     traces = anngen.run(ctx.seed, ctx.pick(360, 6000), ctx.pick(8, 12), INSTS, list("ABCDEF"), tag="c12")
     bad, ms = judge(ctx, "Mon_C12", traces, "find histories", anngen.payload)
+    sim = anngen.spec_to_code_ann(ctx, "Mon_C12", "C12_S", "C12_SInputs", "B", ["I1", "I4"], ["I1", "I4"], ctx.pick(20, 300))
     acc, total = anngen.conform_by_variant(ctx, traces, ctx.pick(100, 1000))
     cov = dict(states=m1.states, transitions=m1.trans, traces_validated_against_impl=acc, monitor_traces=len(traces),
                monitor_failures=bad, monitor_states=ms, conformance_traces=total, spec_drift=total - acc,
-               tlc_runs=m1.runs, exhaustive=False,
+               tlc_runs=m1.runs, exhaustive=False, **sim,
                finds=sum(1 for t in traces for i in t["sched"] if i["op"] == "rx" for e in i["es"] if e["ty"] == "find"),
                samples=[{"variant": traces[1]["variant"], "schedule": traces[1]["sched"], "trace": traces[1]["ev"][:24]}],
                rule="TLC: two instances x finds {matching each, matching none} by unicast/multicast at every instant of the "
